@@ -16,6 +16,9 @@
 (*                conditional expressions, calls of the library functions  *)
 (*                Lib with arbitrary - hence permuted - arguments)         *)
 (*   Commit       the statement enters the innermost open block            *)
+(*   AddLoop      (just outside the subset) a counting while loop or a for *)
+(*                loop over a literal range; Start also offers augmented   *)
+(*                assignments x op= e and assignments to a parameter       *)
 (*   EndIf / StartElse / EndElse   close blocks (elif = else holding one   *)
 (*                if); code may follow an if; a branch may assign, return  *)
 (*                or both; nothing follows a statement that always returns *)
@@ -28,7 +31,7 @@
 (*     and every number a comparison of the program (or of a function it   *)
 (*     calls) mentions, so branch boundaries are hit exactly;              *)
 (*   - the expected outcome at each point: Run(body, point, FT).           *)
-(* Emit prints program + renamings + points + outcomes as JSON (spec ->    *)
+(* Finish prints program + renamings + points + outcomes as JSON (spec ->  *)
 (* code).  PWTheorem states that the reference translation of module       *)
 (* Piecewise agrees with Run at every point: the property is satisfiable,  *)
 (* and with Sim = FALSE (sequential substitution of call arguments) or     *)
@@ -48,15 +51,17 @@ CONSTANTS
     BoolOn,         \* subset of {"and", "or", "not"}
     IteOn,          \* TRUE: conditional expressions
     CallOn,         \* subset of DOMAIN Lib
+    AugOn,          \* operators offered for augmented assignments  x op= e   (just outside the translator's subset)
+    LoopOn,         \* TRUE: counting while loops and for loops over a literal range (just outside the subset)
     MaxToks,        \* bound on the total number of expression nodes of a program (small-scope BFS instances)
     MinStmts, MaxStmts, MaxDepth, MaxNest,   \* MinStmts: a top-level return / Finish needs that many statements
     Sim, EqOk,      \* mode of the reference translation checked by PWTheorem
     CheckPW,        \* TRUE: PWTheorem is evaluated
     EmitOn
 
-VARIABLES params, frames, toks, todo, want, n, used, assigned, done
+VARIABLES params, frames, toks, todo, want, n, used, assigned, done, ok
 
-vars == <<params, frames, toks, todo, want, n, used, assigned, done>>
+vars == <<params, frames, toks, todo, want, n, used, assigned, done, ok>>
 
 \* ---- the function library and the module constants -------------------------------------------
 A == Var("a")  B == Var("b")  X == Var("x")  Y == Var("y")
@@ -79,7 +84,7 @@ FT == Lib @@ ConstTab
 AllParams == <<"a", "b", "c">>
 
 \* ---- construction state ----------------------------------------------------------------------
-NoWant == [k |-> "none", name |-> ""]
+NoWant == [k |-> "none", name |-> "", op |-> ""]
 TopFrame == [kind |-> "top", stmts |-> <<>>, test |-> BoolLit(TRUE), thenb |-> <<>>]
 
 Init ==
@@ -92,6 +97,7 @@ Init ==
     /\ used = 0
     /\ assigned = {}
     /\ done = FALSE
+    /\ ok = TRUE
 
 Cur == frames[Len(frames)]
 SetCur(f) == [frames EXCEPT ![Len(frames)] = f]
@@ -109,27 +115,28 @@ Idle == ~done /\ want.k = "none"
 Tok(k, s, s2, i, ar) == [k |-> k, s |-> s, s2 |-> s2, i |-> i, ar |-> ar]
 Open(t, d) == [t |-> t, d |-> d]
 
+Scope == SeqRange(params) \cup assigned
 AnyReturn == \E j \in DOMAIN frames : HasReturn(frames[j].stmts) \/ HasReturn(frames[j].thenb)
 
 \* the guards keep every behaviour completable: the last statement that fits must be able to be a return
 Start ==
     /\ Idle /\ n < MaxStmts /\ ~AlwaysReturns(Cur.stmts) /\ used < MaxToks
-    /\ \/ /\ n + 2 <= MaxStmts \/ AnyReturn
-          /\ \E x \in Locals : want' = [k |-> "assign", name |-> x]
+    /\ \/ /\ IF n + 2 <= MaxStmts THEN TRUE ELSE AnyReturn
+          /\ \/ \E x \in Locals : want' = [k |-> "assign", name |-> x, op |-> ""]
+             \/ \E x \in Scope, op \in AugOn : want' = [k |-> "aug", name |-> x, op |-> op]
           /\ todo' = <<Open("num", MaxDepth)>>
        \/ /\ Len(frames) = 1 => n + 1 >= MinStmts
-          /\ want' = [k |-> "ret", name |-> ""]
+          /\ want' = [k |-> "ret", name |-> "", op |-> ""]
           /\ todo' = <<Open("num", MaxDepth)>>
        \/ /\ n + 2 <= MaxStmts /\ Len(frames) <= MaxNest /\ used + 4 <= MaxToks
-          /\ want' = [k |-> "if", name |-> ""]
+          /\ want' = [k |-> "if", name |-> "", op |-> ""]
           /\ todo' = <<Open("bool", MaxDepth)>>
     /\ toks' = <<>>
-    /\ UNCHANGED <<params, frames, n, used, assigned, done>>
+    /\ UNCHANGED <<params, frames, n, used, assigned, done, ok>>
 
 \* ---- expressions: top-down, one AST node per step, in prefix order -------------------------------
 \* todo: the open nonterminals [t |-> "num" | "bool", d |-> remaining depth]; toks: the tokens so far.
 \* A token is [k, s, s2, i, ar]: tag, string payloads (name / operator), integer payload, number of children.
-Scope == SeqRange(params) \cup assigned
 Building == ~done /\ want.k # "none" /\ todo # <<>>
 
 NumAtoms == {Tok("var", x, "", 0, 0) : x \in Scope} \cup {Tok("num", "", "", i, 0) : i \in NumLits}
@@ -166,7 +173,7 @@ Expand ==
           /\ toks' = Append(toks, tk)
           /\ todo' = td
     /\ used' = used + 1
-    /\ UNCHANGED <<params, frames, want, n, assigned, done>>
+    /\ UNCHANGED <<params, frames, want, n, assigned, done, ok>>
 
 RECURSIVE Parse(_, _)
 Parse(ts, pos) ==
@@ -190,7 +197,7 @@ Parse(ts, pos) ==
 Parsed == Parse(toks, 1).e
 
 Complete == ~done /\ want.k # "none" /\ todo = <<>>
-Useful == want.k = "assign" \/ FreeVars(Parsed) # {}          \* no constant tests / constant results
+Useful == want.k \in {"assign", "aug"} \/ FreeVars(Parsed) # {}          \* no constant tests / constant results
 
 \* a finished expression that may not be used (constant) is built again
 Retry ==
@@ -198,7 +205,7 @@ Retry ==
     /\ toks' = <<>>
     /\ todo' = <<Open(IF want.k = "if" THEN "bool" ELSE "num", MaxDepth)>>
     /\ used' = used - Len(toks)
-    /\ UNCHANGED <<params, frames, want, n, assigned, done>>
+    /\ UNCHANGED <<params, frames, want, n, assigned, done, ok>>
 
 Commit ==
     /\ Complete /\ Useful
@@ -206,6 +213,9 @@ Commit ==
        \/ /\ want.k = "assign"
           /\ frames' = SetCur([Cur EXCEPT !.stmts = Append(@, Assign(want.name, e))])
           /\ assigned' = assigned \cup {want.name}
+       \/ /\ want.k = "aug"
+          /\ frames' = SetCur([Cur EXCEPT !.stmts = Append(@, Aug(want.op, want.name, e))])
+          /\ UNCHANGED assigned
        \/ /\ want.k = "ret"
           /\ frames' = SetCur([Cur EXCEPT !.stmts = Append(@, Ret(e))])
           /\ UNCHANGED assigned
@@ -216,7 +226,25 @@ Commit ==
     /\ todo' = <<>>
     /\ want' = NoWant
     /\ n' = n + 1
-    /\ UNCHANGED <<params, used, done>>
+    /\ UNCHANGED <<params, used, done, ok>>
+
+\* one step: a counting loop over a local that is already bound (two statements).  The loops terminate:
+\* the bound is a parameter or a literal, which the loop body does not assign.
+Loops ==
+    LET xs == assigned \ SeqRange(params)
+        bounds == {Var(p) : p \in SeqRange(params)} \cup {Num(i) : i \in NumLits}
+        steps == {Var(p) : p \in SeqRange(params)} \cup {Num(1), Var("i")}
+    IN {While(Cmp2("lt", Var(x), bd), <<Aug("add", x, Num(1))>>) : x \in xs, bd \in bounds}
+       \cup {While(Cmp2("lt", Var(x), bd), <<Assign(x, Bin("add", Var(x), Num(1)))>>) : x \in xs, bd \in bounds}
+       \cup {For("i", c, <<Aug("add", x, st)>>) : x \in xs, c \in {0, 1, 2}, st \in steps}
+       \cup {For("i", c, <<Assign(x, Bin("mul", Var(x), st))>>) : x \in xs, c \in {1, 2}, st \in steps}
+
+AddLoop ==
+    /\ Idle /\ LoopOn /\ n + 3 <= MaxStmts /\ ~AlwaysReturns(Cur.stmts) /\ used + 4 <= MaxToks
+    /\ \E lp \in Loops : frames' = SetCur([Cur EXCEPT !.stmts = Append(@, lp)])
+    /\ n' = n + 2
+    /\ used' = used + 3
+    /\ UNCHANGED <<params, toks, todo, want, assigned, done, ok>>
 
 \* ---- closing blocks ------------------------------------------------------------------------------
 Parent == frames[Len(frames) - 1]
@@ -226,26 +254,17 @@ PopWith(s) == frames' = [SubSeq(frames, 1, Len(frames) - 1) EXCEPT ![Len(frames)
 EndIf ==
     /\ Idle /\ Len(frames) > 1 /\ Cur.kind = "then" /\ Cur.stmts # <<>>
     /\ PopWith(If(Cur.test, Cur.stmts, <<>>))
-    /\ UNCHANGED <<params, toks, todo, want, n, used, assigned, done>>
+    /\ UNCHANGED <<params, toks, todo, want, n, used, assigned, done, ok>>
 
 StartElse ==
     /\ Idle /\ Len(frames) > 1 /\ Cur.kind = "then" /\ Cur.stmts # <<>> /\ n < MaxStmts
     /\ frames' = SetCur([Cur EXCEPT !.kind = "else", !.thenb = Cur.stmts, !.stmts = <<>>])
-    /\ UNCHANGED <<params, toks, todo, want, n, used, assigned, done>>
+    /\ UNCHANGED <<params, toks, todo, want, n, used, assigned, done, ok>>
 
 EndElse ==
     /\ Idle /\ Len(frames) > 1 /\ Cur.kind = "else" /\ Cur.stmts # <<>>
     /\ PopWith(If(Cur.test, Cur.thenb, Cur.stmts))
-    /\ UNCHANGED <<params, toks, todo, want, n, used, assigned, done>>
-
-Finish ==
-    /\ Idle /\ Len(frames) = 1 /\ HasReturn(Cur.stmts) /\ (n >= MinStmts \/ AlwaysReturns(Cur.stmts))
-    /\ done' = TRUE
-    /\ UNCHANGED <<params, frames, toks, todo, want, n, used, assigned>>
-
-Next == Start \/ Expand \/ Retry \/ Commit \/ EndIf \/ StartElse \/ EndElse \/ Finish
-
-Spec == Init /\ [][Next]_vars
+    /\ UNCHANGED <<params, toks, todo, want, n, used, assigned, done, ok>>
 
 \* ---- what the specification says about a finished program -----------------------------------------
 Body == frames[1].stmts
@@ -287,17 +306,32 @@ Scenario ==
      pts |-> {Outcome(pt) : pt \in Points}]
 
 IsFirst == n = 0 /\ want.k = "none" /\ ~done
-Emit ==
-    /\ (EmitOn /\ done) => PrintT("@J@" \o ToJson(Scenario) \o "@E@")
-    /\ (EmitOn /\ IsFirst /\ Len(params) = CHOOSE x \in Arities : \A z \in Arities : x <= z)
-           => PrintT("@J@" \o ToJson([t |-> "lib", lib |-> Lib, consts |-> [c \in DOMAIN ConstTab |-> ConstTab[c].v]]) \o "@E@")
 
 \* ---- theorems ---------------------------------------------------------------------------------------
 Mode == [sim |-> Sim, eq |-> EqOk]
-PWTheorem == (CheckPW /\ done) =>
-                LET tr == TranslateBody(params, Body, FT, Mode) IN \A pt \in Points : PWAgreesT(tr, Body, FT, pt)
+PWHolds == LET tr == TranslateBody(params, Body, FT, Mode) IN \A pt \in Points : PWAgreesT(tr, Body, FT, pt)
 
-\* the library functions themselves satisfy the theorem at every grid point (checked once, in the initial state)
+\* Finish completes the program.  The scenario is printed and the theorem evaluated HERE, once per
+\* program (an invariant would be evaluated twice per state by the simulator); the verdict is kept in ok.
+Finish ==
+    /\ Idle /\ Len(frames) = 1 /\ HasReturn(Cur.stmts) /\ (IF n >= MinStmts THEN TRUE ELSE AlwaysReturns(Cur.stmts))     \* IF, not \/: TLC would split the action
+    /\ done' = TRUE
+    /\ ok' = /\ (EmitOn => PrintT("@J@" \o ToJson(Scenario) \o "@E@"))
+             /\ ((CheckPW /\ ~HasLoop(Body)) => PWHolds)
+    /\ UNCHANGED <<params, frames, toks, todo, want, n, used, assigned>>
+
+Next == Start \/ Expand \/ Retry \/ Commit \/ AddLoop \/ EndIf \/ StartElse \/ EndElse \/ Finish
+
+Spec == Init /\ [][Next]_vars
+
+\* the reference translation agrees with Run on every finished program, at every point
+PWTheorem == ok
+
+\* the library is printed once; its functions satisfy the theorem at every grid point
+EmitLib ==
+    (EmitOn /\ IsFirst /\ Len(params) = CHOOSE x \in Arities : \A z \in Arities : x <= z)
+        => PrintT("@J@" \o ToJson([t |-> "lib", lib |-> Lib, consts |-> [c \in DOMAIN ConstTab |-> ConstTab[c].v]]) \o "@E@")
+
 LibTheorem ==
     (CheckPW /\ IsFirst) =>
         \A f \in DOMAIN Lib :
